@@ -146,6 +146,9 @@ func initSyncExternals() {
 		},
 		"(*sync.WaitGroup).Done": func(fr *frame, a []value) value {
 			c := fr.i.counterOf(a[0])
+			if fr.i.sched != nil && fr.i.sched.enabled && fr.i.path != nil {
+				fr.i.sched.wgRelease(a[0].(*value))
+			}
 			*c--
 			fr.i.logUndo(func() { *c++ })
 			if *c < 0 {
@@ -157,7 +160,7 @@ func initSyncExternals() {
 			i := fr.i
 			c := i.counterOf(a[0])
 			if i.sched != nil && i.sched.enabled {
-				i.sched.waitUntil(i, func() bool { return *c == 0 }, "WaitGroup.Wait")
+				i.sched.waitUntil(i, a[0].(*value), func() bool { return *c == 0 }, "WaitGroup.Wait")
 				return nil
 			}
 			if *c != 0 {
